@@ -14,8 +14,10 @@ TECHNIQUE = ("Lean 4 theorems over the C01 pipeline model extended with Download
              "consumers that pause/resume/stop at scripted byte counts; implementation-side monitor against bytes slicing")
 LEVEL_TEXT = ("read_slice proved for every plaintext, encoding, lawful codec, keystream, schedule, offset, size (None included), "
               "known/guessed segment size; ctr_offset / ctr_stream_chunks proved for all keystreams; literal slicing proved; the "
-              "node's shared request queue is proved only at the level of its two list operations "
-              "(concurrent_reads_independent_partial) — the interleaving of deliveries is exercised by the harness, not proved.")
+              "concurrent reads: safety and independence proved for every number of readers and every schedule of genuine "
+              "segment deliveries (concurrent_reads_safe), queue invariant / cancel / delivery facts proved over all operation "
+              "histories (concurrent_reads_independent_partial); completion (liveness) and the refinement of the eventual-send "
+              "plumbing to those schedules are exercised by the harness, not proved.")
 LEVEL_NOTE = ("Lean kernel + standard axioms; zfec/AES as in C01; the eventual-send plumbing between DownloadNode and "
               "Segmentation is exercised (seeded schedules), not verified.")
 RULE = ("one case = one read(offset,size) on a real LiteralFileNode / ImmutableFileNode (sequential: fresh or warmed node; "
@@ -610,10 +612,84 @@ def run_queue(ctx):
         ctx.compare("DownloadNode request queue (active segnum | requests | handles fired) after every operation", metas, impl, model)
 
 
+def run_feed(ctx):
+    """real Segmentation objects handed arbitrary genuine segments in arbitrary order (`_got_segment` called directly,
+    WrongSegmentError = nothing written) vs the model's feedAll; monitor: every reader's output stays a prefix of its
+    own slice and equals it once nothing is wanted any more"""
+    from allmydata.immutable.downloader.segmentation import Segmentation
+    from allmydata.immutable.downloader.common import WrongSegmentError
+    rng = ctx.rng
+
+    class VC:
+        pass
+
+    class Node:
+        _si_prefix = b"x"
+
+    class Ev:
+        def update(self, *a):
+            pass
+
+    class Cons:
+        def __init__(self):
+            self.chunks = []
+
+        def write(self, d):
+            self.chunks.append(d)
+
+    lines, impl, metas = [], [], []
+    for _ in range(ctx.budget(250, 4000)):
+        seg = rng.choice([1, 3, 4, 7, 16, 32])
+        size = rng.choice([1, seg, seg + 1, 2 * seg, 3 * seg - 1, rng.randrange(1, 6 * seg + 2)])
+        ct = bytes(rng.randrange(256) for _ in range(size))
+        nseg = -(-size // seg)
+        node = Node()
+        node._verifycap = VC()
+        node._verifycap.size = size
+        m = rng.randrange(1, 5)
+        ranges, segs, cons = [], [], []
+        for j in range(m):
+            off = rng.randrange(0, size + 1)
+            sz = rng.randrange(0, size - off + 1)
+            ranges.append((off, sz))
+            cj = Cons()
+            sg = Segmentation(node, off, sz, cj, Ev(), None)
+            sg._alive, sg._hungry = True, False          # paused: _got_segment writes, but no follow-up fetch
+            segs.append(sg)
+            cons.append(cj)
+        events = []
+        for _ in range(rng.randrange(0, 4 * nseg + 3)):
+            j = rng.randrange(m)
+            # mostly the segment the reader needs next, sometimes any segment (fetched for someone else / wrong guess)
+            s = segs[j]._offset // seg if rng.random() < 0.6 else rng.randrange(0, nseg + 1)
+            if s >= nseg:
+                continue
+            events.append((j, s))
+            try:
+                segs[j]._got_segment((s * seg, ct[s * seg:(s + 1) * seg], 0.0), s)
+            except WrongSegmentError:
+                pass
+            got = b"".join(cons[j].chunks)
+            want = ct[ranges[j][0]:ranges[j][0] + ranges[j][1]]
+            case = {"kind": "feed", "seg": seg, "ct": ct.hex(), "ranges": ranges, "events": list(events)}
+            if not want.startswith(got) or (segs[j]._size == 0 and got != want):
+                ctx.violation("a reader handed genuine segments wrote bytes outside its own slice", case, "feed-not-own-slice")
+        lines.append("feedall %d %s %s %s" % (seg, hx(ct), ",".join("%d+%d" % r for r in ranges),
+                                              ",".join("%d:%d" % e for e in events) or "-"))
+        impl.append(";".join("%d,%d,%s" % (sg._offset, sg._size, hx(b"".join(cj.chunks))) for sg, cj in zip(segs, cons)))
+        metas.append({"kind": "feed", "seg": seg, "ct": ct.hex(), "ranges": ranges, "events": events})
+        ctx.case(("feed", seg, ct.hex(), repr(ranges), repr(events)) if events else None)
+        ctx.count("feed:readers=%d" % m)
+    model = ctx.model(lines)
+    if model is not None:
+        ctx.compare("Segmentation._got_segment under arbitrary deliveries to m readers vs feedAll", metas, impl, model)
+
+
 def run(ctx):
     import common
     common.setup_impl_path()
     import grid  # noqa: F401
+    run_feed(ctx)
     run_queue(ctx)
     run_ctr(ctx)
     run_lit(ctx)
